@@ -30,6 +30,24 @@ ASSUMPTIONS = [A["A1"], A["A2"], A["A3"], A["A5"], A["A6"], A["ENGINE"],
 LIFTERS = []
 
 WITNESSES = {
+ "K7-edit-followed-by-break-at-the-same-level-returns-the-pending-edit": r'''
+from graphql import parse, visit, Visitor, BREAK, REMOVE
+from graphql.language import DocumentNode, FieldNode, NameNode
+doc = parse("{ a b c }", no_location=True)
+class V(Visitor):
+    def enter_field(self, node, *_):
+        if node.name.value == "a":
+            return FieldNode(name=NameNode(value="z"))
+        if node.name.value == "b":
+            return BREAK
+r = visit(doc, V())
+assert isinstance(r, DocumentNode), f"visit() returned {type(r).__name__}, not a document"
+class W(Visitor):
+    def leave_field(self, node, *_):
+        return REMOVE if node.name.value == "a" else BREAK if node.name.value == "b" else None
+r = visit(doc, W())
+assert isinstance(r, DocumentNode), f"visit() returned {r!r}, not a document"
+''',
  "F17-remove-single-valued-child": r'''
 from graphql import parse, visit, Visitor, REMOVE, print_ast
 d = parse('{ a: b { c } }')
